@@ -1,0 +1,551 @@
+//go:build verif
+
+// Contracts for deductive verification (comment-only; not part of any build without -tags verif).
+//
+// Two kinds of blocks:
+//   //@ func <Recv.>Name      contract of a function of this package (checked against its SSA)
+//   //@ emits <Dir> when <P>  contract of the code the emitters write for every field shape that
+//                             satisfies <P>; all matching blocks are conjoined. The emitted functions
+//                             are obtained by running the real generators of this tree per shape:
+//                             a message M_<shape> with the single field F (attribute "f", path "P.F");
+//                             oneof shapes get a second int32 branch G (attribute "g") in the same group,
+//                             nested messages contain one custom field X handled by the marker hooks
+//                             CopyFromNESTED / CopyToNESTED, which stand for "any nested message body".
+// Clause tags [Cnn] name the properties of /verif/properties.jsonl a clause carries.
+// $Name is replaced by the shape's attribute of that name (GoType, CastTo, CastFrom, ...).
+package main
+
+// ===================================================================== CopyFrom, emitted code
+
+//@ emits CopyFrom when true
+//@ requires obj != nil
+//@ define present = has(tf.Attrs, "f")
+//@ define a = tf.Attrs["f"]
+//@ define okT = present && is(a, $VT)
+//@ define noDiags = zero(diag.Diagnostics)
+//@ define missingD = attrReadMissingDiag{"P.F"}
+//@ define convD = attrReadConversionFailureDiag{"P.F", "$ValueType"}
+
+// ---- missing or ill-typed attribute: exactly one diagnostic naming the path (C06)
+//@ emits CopyFrom when Kind != "Custom" && !OneOf
+//@ ensures [C06] imp(!present, result == dinsert(noDiags, missingD))
+//@ ensures [C06] imp(present && !is(a, $VT), result == dinsert(noDiags, convD))
+
+//@ emits CopyFrom when Kind != "Custom" && OneOf
+//@ ensures [C06] imp(!present, dhas(result, missingD))
+//@ ensures [C06] imp(present && !is(a, $VT), dhas(result, convD))
+
+// ---- oneof groups: the message has branches G (int32, attribute "g") and F, in that order
+//@ emits CopyFrom when OneOf
+//@ define pg = has(tf.Attrs, "g")
+//@ define ag = tf.Attrs["g"]
+//@ define vg = as(ag, types.Int64)
+//@ define gknown = pg && is(ag, types.Int64) && !vg.Null && !vg.Unknown
+//@ define holder = obj.Holder
+//@ define wf = as(holder, *$OneOfType)
+//@ define wg = as(holder, *M_${ID}_G)
+//@ modifies obj.Holder
+//@ ensures [C07,C05] imp(!known && !gknown, holder == nil)
+//@ ensures [C07,C06] imp(!known && gknown, is(holder, *M_${ID}_G) && wg != nil && fresh(wg) && wg.G == int32(vg.Value))
+//@ ensures [C07] imp(known, is(holder, *$OneOfType) && wf != nil && fresh(wf))
+
+// ---- primitives
+//@ emits CopyFrom when Kind == "Primitive"
+//@ define v = as(a, $VT)
+//@ define known = okT && !v.Null && !v.Unknown
+
+//@ emits CopyFrom when Kind == "Primitive" && !OneOf
+//@ ensures [C05,C06] imp(okT, len(result) == 0)
+
+//@ emits CopyFrom when Kind == "Primitive" && Ctx == "plain" && !IsPlaceholder
+//@ modifies obj.F
+//@ ensures [C06,C02] imp(!okT, same(obj.F, old(obj.F)))
+
+//@ emits CopyFrom when Kind == "Primitive" && Ctx == "plain" && !IsNullable && !IsPlaceholder
+//@ ensures [C05] imp(okT && !known, same(obj.F, zero($GoType)))
+//@ ensures [C04,C19,C06,C02] imp(known, same(obj.F, $CastFrom(v.Value)))
+
+//@ emits CopyFrom when Kind == "Primitive" && Ctx == "plain" && IsNullable
+//@ ensures [C05] imp(okT && !known, obj.F == nil)
+//@ ensures [C04,C19,C06,C02] imp(known, obj.F != nil && fresh(obj.F) && same(*obj.F, $CastFrom(v.Value)))
+
+//@ emits CopyFrom when Kind == "Primitive" && OneOf
+//@ ensures [C07,C19] imp(known, same(wf.F, $CastFrom(v.Value)))
+
+// child of a nullable embedded message: the parent is allocated on demand
+//@ emits CopyFrom when Embed
+//@ define emb = obj.Emb_${ID}
+
+//@ emits CopyFrom when Kind == "Primitive" && Embed
+//@ modifies obj.Emb_${ID}, obj.Emb_${ID}.F
+//@ ensures [C06,C02] imp(!okT, emb == old(emb) && imp(emb != nil, same(emb.F, old(emb.F))))
+//@ ensures [C04] imp(known, emb != nil && imp(old(emb) != nil, emb == old(emb)) && imp(old(emb) == nil, fresh(emb) && emb.Sibling == 0))
+
+//@ emits CopyFrom when Kind == "Primitive" && Embed && !IsNullable
+//@ ensures [C05] imp(okT && !known, emb == nil || same(emb.F, zero($GoType)))
+//@ ensures [C04,C19] imp(known, same(emb.F, $CastFrom(v.Value)))
+
+//@ emits CopyFrom when Kind == "Primitive" && Embed && IsNullable
+//@ ensures [C05] imp(okT && !known, emb == nil || emb.F == nil)
+//@ ensures [C04,C19] imp(known, emb.F != nil && same(*emb.F, $CastFrom(v.Value)))
+
+// ---- nested objects
+//@ emits CopyFrom when Kind == "Object"
+//@ define v = as(a, types.Object)
+//@ define known = okT && !v.Null && !v.Unknown
+//@ define nestedMissing = attrReadMissingDiag{"P.F.X"}
+//@ define nestedDiags = ite(has(v.Attrs, "x"), noDiags, dinsert(noDiags, nestedMissing))
+
+//@ emits CopyFrom when Kind == "Object" && !OneOf
+//@ ensures [C05,C06] imp(okT && !known, len(result) == 0)
+
+//@ emits CopyFrom when Kind == "Object" && !OneOf && Nested == "marker"
+//@ ensures [C06] imp(known, result == nestedDiags)
+
+//@ emits CopyFrom when Kind == "Object" && !OneOf && Nested == "empty"
+//@ ensures [C06] imp(known, len(result) == 0)
+
+//@ emits CopyFrom when Kind == "Object" && Ctx == "plain"
+//@ modifies obj.F
+//@ ensures [C06,C02] imp(!okT, same(obj.F, old(obj.F)))
+
+//@ emits CopyFrom when Kind == "Object" && Ctx == "plain" && IsNullable
+//@ ensures [C05] imp(okT && !known, obj.F == nil)
+//@ ensures [C04] imp(known, obj.F != nil && fresh(obj.F))
+
+//@ emits CopyFrom when Kind == "Object" && Ctx == "plain" && IsNullable && Nested == "marker"
+//@ ensures [C04,C02] imp(known, obj.F.X == nestedDecode(v.Attrs["x"]) && obj.F.Other == 0)
+
+//@ emits CopyFrom when Kind == "Object" && Ctx == "plain" && !IsNullable
+//@ ensures [C05] imp(okT && !known, same(obj.F, zero($GoType)))
+
+//@ emits CopyFrom when Kind == "Object" && Ctx == "plain" && !IsNullable && Nested == "marker"
+//@ ensures [C04,C02] imp(known, obj.F.X == nestedDecode(v.Attrs["x"]) && obj.F.Other == 0)
+
+//@ emits CopyFrom when Kind == "Object" && OneOf
+//@ ensures [C07] imp(known, wf.F != nil && fresh(wf.F))
+
+//@ emits CopyFrom when Kind == "Object" && OneOf && Nested == "marker"
+//@ ensures [C07,C04] imp(known, wf.F.X == nestedDecode(v.Attrs["x"]) && wf.F.Other == 0)
+
+//@ emits CopyFrom when Kind == "Object" && Embed
+//@ modifies obj.Emb_${ID}, obj.Emb_${ID}.F
+//@ ensures [C05] imp(okT && !known, emb == nil || same(emb.F, zero($GoType)))
+
+// ---- lists
+//@ emits CopyFrom when Kind == "PrimitiveList" || Kind == "ObjectList"
+//@ define v = as(a, types.List)
+//@ define known = okT && !v.Null && !v.Unknown
+//@ ghost j0 int
+//@ define inr = 0 <= j0 && j0 < len(v.Elems)
+//@ define e = v.Elems[j0]
+//@ define ev = as(e, $EVT)
+//@ define eknown = is(e, $EVT) && !ev.Null && !ev.Unknown
+//@ define econvD = attrReadConversionFailureDiag{"P.F", "$ElemValueTypeQ"}
+//@ ensures [C05,C06] imp(okT && !known, len(result) == 0)
+
+//@ emits CopyFrom when (Kind == "PrimitiveList" || Kind == "ObjectList") && Ctx == "plain"
+//@ modifies obj.F
+//@ ensures [C06,C02] imp(!okT, same(obj.F, old(obj.F)))
+//@ ensures [C05] imp(okT && !known, len(obj.F) == 0)
+//@ ensures [C04,C06] imp(known, len(obj.F) == len(v.Elems))
+//@ invariant[0] len(obj.F) == len(v.Elems) && fresh(obj.F) && !isnilslice(obj.F)
+//@ invariant[0] imp(inr && !is(e, $EVT) && done(j0), dhas(diags, econvD))
+//@ ensures [C06] imp(known && inr && !is(e, $EVT), dhas(result, econvD))
+
+//@ emits CopyFrom when Kind == "PrimitiveList" && Ctx == "plain"
+//@ invariant[0] diags == noDiags || diags == dinsert(noDiags, econvD)
+//@ ensures [C06] imp(known, result == noDiags || result == dinsert(noDiags, econvD))
+
+//@ emits CopyFrom when Kind == "PrimitiveList" && Ctx == "plain" && !IsNullable
+//@ define want = ite(eknown, $CastFrom(ev.Value), zero($GoElemType))
+//@ invariant[0] imp(inr, same(obj.F[j0], ite(done(j0), want, zero($GoElemType))))
+//@ ensures [C04,C19,C05,C06] imp(known && inr, same(obj.F[j0], want))
+
+//@ emits CopyFrom when Kind == "PrimitiveList" && Ctx == "plain" && IsNullable
+//@ invariant[0] imp(inr && !(done(j0) && eknown), obj.F[j0] == nil)
+//@ invariant[0] imp(inr && done(j0) && eknown, obj.F[j0] != nil && fresh(obj.F[j0]) && same(*obj.F[j0], $CastFrom(ev.Value)))
+//@ ensures [C05,C06] imp(known && inr && !eknown, obj.F[j0] == nil)
+//@ ensures [C04,C19] imp(known && inr && eknown, obj.F[j0] != nil && same(*obj.F[j0], $CastFrom(ev.Value)))
+
+//@ emits CopyFrom when Kind == "ObjectList" && Ctx == "plain" && IsNullable && Nested == "marker"
+//@ invariant[0] imp(inr && !(done(j0) && eknown), obj.F[j0] == nil)
+//@ invariant[0] imp(inr && done(j0) && eknown, obj.F[j0] != nil && fresh(obj.F[j0]) && obj.F[j0].X == nestedDecode(ev.Attrs["x"]) && obj.F[j0].Other == 0)
+//@ ensures [C05,C06] imp(known && inr && !eknown, obj.F[j0] == nil)
+//@ ensures [C04,C02] imp(known && inr && eknown, obj.F[j0] != nil && obj.F[j0].X == nestedDecode(ev.Attrs["x"]) && obj.F[j0].Other == 0)
+
+//@ emits CopyFrom when Kind == "ObjectList" && Ctx == "plain" && !IsNullable && Nested == "marker"
+//@ invariant[0] imp(inr && !(done(j0) && eknown), same(obj.F[j0], zero($GoElemType)))
+//@ invariant[0] imp(inr && done(j0) && eknown, obj.F[j0].X == nestedDecode(ev.Attrs["x"]) && obj.F[j0].Other == 0)
+//@ ensures [C05,C06] imp(known && inr && !eknown, same(obj.F[j0], zero($GoElemType)))
+//@ ensures [C04,C02] imp(known && inr && eknown, obj.F[j0].X == nestedDecode(ev.Attrs["x"]) && obj.F[j0].Other == 0)
+
+//@ emits CopyFrom when (Kind == "PrimitiveList" || Kind == "ObjectList") && Embed
+//@ modifies obj.Emb_${ID}, obj.Emb_${ID}.F
+
+// ---- maps
+//@ emits CopyFrom when Kind == "PrimitiveMap" || Kind == "ObjectMap"
+//@ define v = as(a, types.Map)
+//@ define known = okT && !v.Null && !v.Unknown
+//@ ghost k0 string
+//@ define inr = has(v.Elems, k0)
+//@ define e = v.Elems[k0]
+//@ define ev = as(e, $EVT)
+//@ define eknown = is(e, $EVT) && !ev.Null && !ev.Unknown
+//@ define econvD = attrReadConversionFailureDiag{"P.F", "$ElemValueTypeQ"}
+//@ ensures [C05,C06] imp(okT && !known, len(result) == 0)
+
+//@ emits CopyFrom when (Kind == "PrimitiveMap" || Kind == "ObjectMap") && Ctx == "plain"
+//@ modifies obj.F
+//@ ensures [C06,C02] imp(!okT, obj.F == old(obj.F))
+//@ ensures [C05] imp(okT && !known, len(obj.F) == 0)
+//@ ensures [C04,C06] imp(known, obj.F != nil && has(obj.F, k0) == (inr && is(e, $EVT)))
+//@ invariant[0] obj.F != nil && fresh(obj.F)
+//@ invariant[0] has(obj.F, k0) == (done(k0) && inr && is(e, $EVT))
+//@ invariant[0] imp(inr && !is(e, $EVT) && done(k0), dhas(diags, econvD))
+//@ ensures [C06] imp(known && inr && !is(e, $EVT), dhas(result, econvD))
+
+//@ emits CopyFrom when Kind == "PrimitiveMap" && Ctx == "plain"
+//@ invariant[0] diags == noDiags || diags == dinsert(noDiags, econvD)
+//@ ensures [C06] imp(known, result == noDiags || result == dinsert(noDiags, econvD))
+
+//@ emits CopyFrom when Kind == "PrimitiveMap" && Ctx == "plain" && !IsNullable
+//@ define want = ite(eknown, $CastFrom(ev.Value), zero($GoElemType))
+//@ invariant[0] imp(done(k0) && inr && is(e, $EVT), same(obj.F[k0], want))
+//@ ensures [C04,C19,C05] imp(known && inr && is(e, $EVT), same(obj.F[k0], want))
+
+//@ emits CopyFrom when Kind == "PrimitiveMap" && Ctx == "plain" && IsNullable
+//@ invariant[0] imp(done(k0) && inr && is(e, $EVT) && !eknown, obj.F[k0] == nil)
+//@ invariant[0] imp(done(k0) && inr && eknown, obj.F[k0] != nil && fresh(obj.F[k0]) && same(*obj.F[k0], $CastFrom(ev.Value)))
+//@ ensures [C05] imp(known && inr && is(e, $EVT) && !eknown, obj.F[k0] == nil)
+//@ ensures [C04,C19] imp(known && inr && eknown, obj.F[k0] != nil && same(*obj.F[k0], $CastFrom(ev.Value)))
+
+//@ emits CopyFrom when Kind == "ObjectMap" && Ctx == "plain" && IsNullable && Nested == "marker"
+//@ invariant[0] imp(done(k0) && inr && is(e, $EVT) && !eknown, obj.F[k0] == nil)
+//@ invariant[0] imp(done(k0) && inr && eknown, obj.F[k0] != nil && fresh(obj.F[k0]) && obj.F[k0].X == nestedDecode(ev.Attrs["x"]) && obj.F[k0].Other == 0)
+//@ ensures [C05] imp(known && inr && is(e, $EVT) && !eknown, obj.F[k0] == nil)
+//@ ensures [C04,C02] imp(known && inr && eknown, obj.F[k0] != nil && obj.F[k0].X == nestedDecode(ev.Attrs["x"]) && obj.F[k0].Other == 0)
+
+//@ emits CopyFrom when Kind == "ObjectMap" && Ctx == "plain" && !IsNullable && Nested == "marker"
+//@ invariant[0] imp(done(k0) && inr && is(e, $EVT) && !eknown, same(obj.F[k0], zero($GoElemType)))
+//@ invariant[0] imp(done(k0) && inr && eknown, obj.F[k0].X == nestedDecode(ev.Attrs["x"]) && obj.F[k0].Other == 0)
+//@ ensures [C05] imp(known && inr && is(e, $EVT) && !eknown, same(obj.F[k0], zero($GoElemType)))
+//@ ensures [C04,C02] imp(known && inr && eknown, obj.F[k0].X == nestedDecode(ev.Attrs["x"]) && obj.F[k0].Other == 0)
+
+//@ emits CopyFrom when (Kind == "PrimitiveMap" || Kind == "ObjectMap") && Embed
+//@ modifies obj.Emb_${ID}, obj.Emb_${ID}.F
+
+// ---- custom types: delegated to the user's hook (C17)
+//@ emits CopyFrom when Kind == "Custom"
+//@ ensures [C17,C06] result == ite(present, noDiags, dinsert(noDiags, missingD))
+
+//@ emits CopyFrom when Kind == "Custom" && Ctx == "plain"
+//@ modifies obj.F
+//@ ensures [C17] same(obj.F, hookDecode(a))
+
+//@ emits CopyFrom when Kind == "Custom" && Embed
+//@ modifies obj.Emb_${ID}, obj.Emb_${ID}.F
+
+// ===================================================================== CopyTo, emitted code
+//
+// One contract covers the four situations the properties distinguish: the attribute type is
+// missing from the target (C06); the target holds no value for the attribute (C03, C20); it holds
+// a value from a plan (C08) or from an earlier CopyTo (C09).
+
+//@ emits CopyTo when true
+//@ requires obj != nil && tf != nil
+//@ define noDiags = zero(diag.Diagnostics)
+//@ define hasT = old(has(tf.AttrTypes, "f"))
+//@ define ty = old(tf.AttrTypes["f"])
+//@ define had = old(has(tf.Attrs, "f"))
+//@ define prevA = old(tf.Attrs["f"])
+//@ define out = tf.Attrs["f"]
+//@ define missingD = attrWriteMissingDiag{"P.F"}
+//@ define untouched = has(tf.Attrs, "f") == had && imp(had, out == prevA)
+//@ requires imp(hasT, ty != nil)
+//@ ensures [C03] !tf.Null && !tf.Unknown && tf.Attrs != nil
+//@ ensures [C08,C09] imp(old(tf.Attrs) != nil, tf.Attrs == old(tf.Attrs))
+//@ ensures [C02] tf.AttrTypes == old(tf.AttrTypes)
+
+//@ emits CopyTo when !OneOf
+//@ modifies tf.Null, tf.Unknown, tf.Attrs, tf.Attrs["f"]
+//@ ensures [C06] imp(!hasT, result == dinsert(noDiags, missingD) && untouched)
+
+// the framework's contract for "null value of this attribute type", assumed of the attribute types
+// of a schema-typed target (C03) — a precondition, used only when no usable value is present
+//@ emits CopyTo when Kind == "Primitive" || Kind == "PrimitiveList" || Kind == "PrimitiveMap"
+//@ define zvOf(t) = t.ValueFromTerraform(ctx, tftypes.NewValue(t.TerraformType(ctx), nil))
+//@ define zvOK(t) = is(first(zvOf(t)), $EVT) && second(zvOf(t)) == nil && as(first(zvOf(t)), $EVT).Null && !as(first(zvOf(t)), $EVT).Unknown
+
+// ---- primitives
+//@ emits CopyTo when Kind == "Primitive"
+//@ define prevOK = had && is(prevA, $EVT)
+//@ define prev = as(prevA, $EVT)
+//@ define o = as(out, $EVT)
+//@ requires imp(hasT && !prevOK, zvOK(ty))
+
+//@ emits CopyTo when Kind == "Primitive" && !OneOf
+//@ ensures [C03,C06] imp(hasT, len(result) == 0 && has(tf.Attrs, "f") && is(out, $EVT) && !o.Unknown)
+
+// a value that is already present keeps its null-ness (value-held fields only; pointer-backed ones follow the pointer)
+//@ emits CopyTo when Kind == "Primitive" && Ctx == "plain" && !IsNullable
+//@ ensures [C08] imp(hasT && prevOK, o.Null == prev.Null)
+
+//@ emits CopyTo when Kind == "Primitive" && Ctx == "plain" && !IsNullable && !IsPlaceholder
+//@ ensures [C19,C03,C08,C09] imp(hasT, same(o.Value, $CastTo(obj.F)))
+
+//@ emits CopyTo when Kind == "Primitive" && Ctx == "plain" && !IsNullable && !IsPlaceholder && HasZero
+//@ ensures [C20] imp(hasT && !prevOK, o.Null == ($CastTo(obj.F) == $ZeroValue))
+
+//@ emits CopyTo when Kind == "Primitive" && Ctx == "plain" && !IsNullable && !IsPlaceholder && !HasZero
+//@ ensures [C20] imp(hasT && !prevOK, !o.Null)
+
+//@ emits CopyTo when Kind == "Primitive" && Ctx == "plain" && IsNullable
+//@ ensures [C20,C09] imp(hasT, o.Null == (obj.F == nil))
+//@ ensures [C19,C03,C08,C09] imp(hasT && obj.F != nil, same(o.Value, $GoElemTypeIndirect(*obj.F)))
+
+//@ emits CopyTo when IsPlaceholder
+//@ ensures [C20,C10] imp(hasT && !prevOK, o.Null)
+
+// child of a nullable embedded message
+//@ emits CopyTo when Embed
+//@ define emb = obj.Emb_${ID}
+
+//@ emits CopyTo when Kind == "Primitive" && Embed
+//@ ensures [C20] imp(hasT && emb == nil, o.Null)
+
+//@ emits CopyTo when Kind == "Primitive" && Embed && !IsNullable
+//@ ensures [C08] imp(hasT && prevOK && emb != nil, o.Null == prev.Null)
+
+//@ emits CopyTo when Kind == "Primitive" && Embed && !IsNullable
+//@ ensures [C19,C03] imp(hasT && emb != nil, same(o.Value, $CastTo(emb.F)))
+
+//@ emits CopyTo when Kind == "Primitive" && Embed && !IsNullable && HasZero
+//@ ensures [C20] imp(hasT && !prevOK && emb != nil, o.Null == ($CastTo(emb.F) == $ZeroValue))
+
+//@ emits CopyTo when Kind == "Primitive" && Embed && IsNullable
+//@ ensures [C20] imp(hasT && emb != nil, o.Null == (emb.F == nil))
+
+// ---- oneof groups: branches G (int32, attribute "g") and F
+//@ emits CopyTo when OneOf
+//@ define hasTg = old(has(tf.AttrTypes, "g"))
+//@ define tyg = old(tf.AttrTypes["g"])
+//@ define hadg = old(has(tf.Attrs, "g"))
+//@ define prevG = old(tf.Attrs["g"])
+//@ define prevGOK = hadg && is(prevG, types.Int64)
+//@ define outg = tf.Attrs["g"]
+//@ define og = as(outg, types.Int64)
+//@ define zvg = tyg.ValueFromTerraform(ctx, tftypes.NewValue(tyg.TerraformType(ctx), nil))
+//@ define holder = obj.Holder
+//@ define factive = is(holder, *$OneOfType)
+//@ define gactive = is(holder, *M_${ID}_G)
+//@ define wf = as(holder, *$OneOfType)
+//@ define wg = as(holder, *M_${ID}_G)
+//@ requires imp(hasTg, tyg != nil)
+//@ requires imp(hasTg && !prevGOK, is(first(zvg), types.Int64) && second(zvg) == nil && as(first(zvg), types.Int64).Null && !as(first(zvg), types.Int64).Unknown)
+//@ requires imp(factive, wf != nil) && imp(gactive, wg != nil)
+//@ modifies tf.Null, tf.Unknown, tf.Attrs, tf.Attrs["f"], tf.Attrs["g"]
+//@ ensures [C06] imp(!hasT, dhas(result, missingD) && untouched)
+//@ ensures [C07,C03] imp(hasTg, has(tf.Attrs, "g") && is(outg, types.Int64) && !og.Unknown)
+//@ ensures [C07,C20] imp(hasTg && !prevGOK, og.Null == !(gactive && wg.G != 0))
+//@ ensures [C07] imp(hasTg && gactive, og.Value == int64(wg.G))
+
+//@ emits CopyTo when Kind == "Primitive" && OneOf
+//@ ensures [C06] imp(hasT && hasTg, len(result) == 0)
+//@ ensures [C07,C03] imp(hasT, has(tf.Attrs, "f") && is(out, $EVT) && !o.Unknown)
+//@ ensures [C07,C19] imp(hasT && factive, same(o.Value, $CastTo(wf.F)))
+
+//@ emits CopyTo when Kind == "Primitive" && OneOf && HasZero
+//@ ensures [C07,C20] imp(hasT && !prevOK, o.Null == !(factive && !($CastTo(wf.F) == $ZeroValue)))
+
+//@ emits CopyTo when Kind == "Primitive" && OneOf && !HasZero
+//@ ensures [C07,C20] imp(hasT && !prevOK && !factive, o.Null)
+
+// ---- nested objects
+//@ emits CopyTo when Kind == "Object"
+//@ define isOT = hasT && is(ty, types.ObjectType)
+//@ define ot = as(ty, types.ObjectType)
+//@ define prevOK = had && is(prevA, types.Object)
+//@ define prev = as(prevA, types.Object)
+//@ define o = as(out, types.Object)
+//@ define convD = attrWriteConversionFailureDiag{"P.F", "$ElemType"}
+//@ define nestedMissing = attrWriteMissingDiag{"P.F.X"}
+//@ define nty = o.AttrTypes["x"]
+
+//@ emits CopyTo when Kind == "Object" && !OneOf
+//@ ensures [C06] imp(hasT && !isOT, result == dinsert(noDiags, convD) && untouched)
+
+//@ emits CopyTo when Kind == "Object"
+//@ ensures [C03] imp(isOT, has(tf.Attrs, "f") && is(out, types.Object) && !o.Unknown && o.Attrs != nil)
+//@ ensures [C03] imp(isOT && !prevOK, o.AttrTypes == ot.AttrTypes)
+//@ ensures [C08] imp(isOT && prevOK, o.AttrTypes == prev.AttrTypes && imp(prev.Attrs != nil, o.Attrs == prev.Attrs))
+
+//@ emits CopyTo when Kind == "Object"
+//@ define prevAttrs = ite(prevOK, prev.Attrs, zero(map[string]attr.Value))
+
+//@ emits CopyTo when Kind == "Object" && Nested == "marker"
+//@ modifies prevAttrs["x"]
+
+// an empty nested message has the single placeholder attribute "active" (a Bool)
+//@ emits CopyTo when Kind == "Object" && Nested == "empty"
+//@ modifies prevAttrs["active"]
+//@ define aty = ite(prevOK, prev.AttrTypes["active"], ot.AttrTypes["active"])
+//@ define azv = aty.ValueFromTerraform(ctx, tftypes.NewValue(aty.TerraformType(ctx), nil))
+//@ requires imp(isOT, aty != nil && is(first(azv), types.Bool) && second(azv) == nil && as(first(azv), types.Bool).Null && !as(first(azv), types.Bool).Unknown)
+
+//@ emits CopyTo when Kind == "Object" && Ctx == "plain"
+//@ define src = obj.F
+
+//@ emits CopyTo when Kind == "Object" && Ctx == "plain" && IsNullable
+//@ ensures [C20,C09] imp(isOT && src == nil, o.Null)
+//@ ensures [C20] imp(isOT && src != nil && !prevOK, !o.Null)
+//@ ensures [C08] imp(isOT && src != nil && prevOK, o.Null == prev.Null)
+//@ define live = isOT && src != nil
+
+//@ emits CopyTo when Kind == "Object" && Ctx == "plain" && !IsNullable
+//@ ensures [C20] imp(isOT && !prevOK, !o.Null)
+//@ ensures [C08] imp(isOT && prevOK, o.Null == prev.Null)
+//@ define live = isOT
+
+//@ emits CopyTo when Kind == "Object" && Ctx == "plain" && Nested == "marker"
+//@ ensures [C03,C02] imp(live && has(o.AttrTypes, "x"), has(o.Attrs, "x") && o.Attrs["x"] == nestedEncode(src.X, nty, ite(prevOK, old(prev.Attrs["x"]), zero(attr.Value))))
+//@ ensures [C06] imp(live, result == ite(has(o.AttrTypes, "x"), noDiags, dinsert(noDiags, nestedMissing)))
+//@ ensures [C06] imp(isOT && !live, len(result) == 0)
+
+//@ emits CopyTo when Kind == "Object" && Ctx == "plain" && Nested == "empty"
+//@ ensures [C10,C20] imp(live && has(o.AttrTypes, "active") && !(prevOK && has(prev.Attrs, "active") && is(prev.Attrs["active"], types.Bool)), has(o.Attrs, "active") && is(o.Attrs["active"], types.Bool) && as(o.Attrs["active"], types.Bool).Null)
+
+// oneof branch holding a message
+//@ emits CopyTo when Kind == "Object" && OneOf
+//@ ensures [C07,C20] imp(isOT && !factive, o.Null)
+//@ ensures [C07,C20] imp(isOT && factive && wf.F == nil, o.Null)
+//@ ensures [C07,C20] imp(isOT && factive && wf.F != nil && !prevOK, !o.Null)
+
+// ---- custom types (C17)
+//@ emits CopyTo when Kind == "Custom" && Ctx == "plain"
+//@ ensures [C17,C06] imp(hasT, len(result) == 0 && has(tf.Attrs, "f") && out == CopyToHOOK(noDiags, obj.F, ty, prevA))
+
+// ---- lists and maps
+//@ emits CopyTo when (IsRepeated || IsMap) && Kind != "Custom"
+//@ define src = obj.F
+//@ define isCT = hasT && is(ty, $TT)
+//@ define ct = as(ty, $TT)
+//@ define prevOK = had && is(prevA, $VT)
+//@ define prev = as(prevA, $VT)
+//@ define o = as(out, $VT)
+//@ define convD = attrWriteConversionFailureDiag{"P.F", "$Type"}
+//@ ensures [C06] imp(hasT && !isCT, result == dinsert(noDiags, convD) && untouched)
+//@ ensures [C03] imp(isCT, has(tf.Attrs, "f") && is(out, $VT) && !o.Unknown)
+//@ ensures [C03] imp(isCT && !prevOK, o.ElemType == ct.ElemType)
+//@ ensures [C08] imp(isCT && prevOK, o.ElemType == prev.ElemType)
+
+//@ emits CopyTo when (IsRepeated || IsMap) && Kind != "Custom" && Ctx == "plain"
+//@ ensures [C20] imp(isCT && !prevOK, o.Null == (len(src) == 0))
+//@ ensures [C08,C09] imp(isCT && prevOK, o.Null == (prev.Null && len(src) == 0))
+
+//@ emits CopyTo when IsRepeated && Kind != "Custom"
+//@ ghost j0 int
+//@ define inr = 0 <= j0 && j0 < len(src)
+//@ define el = o.Elems[j0]
+//@ define prevElems = ite(prevOK, prev.Elems, zero([]attr.Value))
+//@ modifies prevElems[_]
+
+//@ emits CopyTo when IsRepeated && Kind != "Custom" && Ctx == "plain"
+//@ ensures [C03,C08] imp(isCT && (!isnilslice(src) || !prevOK), len(o.Elems) == len(src))
+//@ ensures [C09] imp(isCT, len(o.Elems) == len(src))
+//@ invariant[0] len(c.Elems) == len(src) && !isnilslice(c.Elems) && (fresh(c.Elems) || (prevOK && same(c.Elems, prev.Elems)))
+
+//@ emits CopyTo when IsMap && Kind != "Custom"
+//@ ghost k0 string
+//@ define inr = has(src, k0)
+//@ define el = o.Elems[k0]
+//@ define prevElems = ite(prevOK, prev.Elems, zero(map[string]attr.Value))
+//@ modifies prevElems[_]
+
+//@ emits CopyTo when IsMap && Kind != "Custom" && Ctx == "plain"
+//@ requires imp(prevOK, prev.Elems != old(tf.Attrs))
+//@ ensures [C03] imp(isCT, o.Elems != nil)
+//@ ensures [C03] imp(isCT && !prevOK, has(o.Elems, k0) == has(src, k0))
+//@ ensures [C09] imp(isCT, has(o.Elems, k0) == has(src, k0))
+//@ ensures [C08] imp(isCT, has(o.Elems, k0) == (has(src, k0) || (prevOK && has(prev.Elems, k0))))
+//@ invariant[0] c.Elems != nil && (fresh(c.Elems) || (prevOK && same(c.Elems, prev.Elems)))
+//@ invariant[0] has(c.Elems, k0) == (done(k0) || (prevOK && same(c.Elems, prev.Elems) && has(prev.Elems, k0)))
+
+// elements of primitive collections
+//@ emits CopyTo when Kind == "PrimitiveList" || Kind == "PrimitiveMap"
+//@ define weird = had && is(prevA, $EVT)
+//@ define ev = as(el, $EVT)
+//@ requires imp(isCT && src != nil && !weird, ct.ElemType != nil && zvOK(ct.ElemType))
+
+//@ emits CopyTo when Kind == "PrimitiveList" && Ctx == "plain"
+//@ invariant[0] len(diags) == 0
+//@ ensures [C03,C06] imp(isCT && !weird, len(result) == 0)
+//@ define cev = as(c.Elems[j0], $EVT)
+
+//@ emits CopyTo when Kind == "PrimitiveMap" && Ctx == "plain"
+//@ invariant[0] len(diags) == 0
+//@ ensures [C03,C06] imp(isCT && !weird, len(result) == 0)
+//@ define cev = as(c.Elems[k0], $EVT)
+
+//@ emits CopyTo when Kind == "PrimitiveList" && Ctx == "plain" && !IsNullable
+//@ invariant[0] imp(done(j0) && inr && !weird, is(c.Elems[j0], $EVT) && !cev.Unknown && same(cev.Value, $CastTo(src[j0])))
+//@ ensures [C03,C19,C09] imp(isCT && inr && !weird, is(el, $EVT) && !ev.Unknown && same(ev.Value, $CastTo(src[j0])))
+
+//@ emits CopyTo when Kind == "PrimitiveList" && Ctx == "plain" && !IsNullable && HasZero
+//@ invariant[0] imp(done(j0) && inr && !weird, cev.Null == ($CastTo(src[j0]) == $ZeroValue))
+//@ ensures [C04] imp(isCT && inr && !weird, ev.Null == ($CastTo(src[j0]) == $ZeroValue))
+
+//@ emits CopyTo when Kind == "PrimitiveList" && Ctx == "plain" && IsNullable
+//@ invariant[0] imp(done(j0) && inr && !weird, is(c.Elems[j0], $EVT) && !cev.Unknown && cev.Null == (src[j0] == nil) && imp(src[j0] != nil, same(cev.Value, $GoElemTypeIndirect(*src[j0]))))
+//@ ensures [C03,C19,C09] imp(isCT && inr && !weird, is(el, $EVT) && !ev.Unknown && ev.Null == (src[j0] == nil) && imp(src[j0] != nil, same(ev.Value, $GoElemTypeIndirect(*src[j0]))))
+
+//@ emits CopyTo when Kind == "PrimitiveMap" && Ctx == "plain" && !IsNullable
+//@ invariant[0] imp(done(k0) && !weird, is(c.Elems[k0], $EVT) && !cev.Unknown && same(cev.Value, $CastTo(src[k0])))
+//@ ensures [C03,C19,C09] imp(isCT && inr && !weird, is(el, $EVT) && !ev.Unknown && same(ev.Value, $CastTo(src[k0])))
+
+//@ emits CopyTo when Kind == "PrimitiveMap" && Ctx == "plain" && !IsNullable && HasZero
+//@ invariant[0] imp(done(k0) && !weird, cev.Null == ($CastTo(src[k0]) == $ZeroValue))
+//@ ensures [C04] imp(isCT && inr && !weird, ev.Null == ($CastTo(src[k0]) == $ZeroValue))
+
+//@ emits CopyTo when Kind == "PrimitiveMap" && Ctx == "plain" && IsNullable
+//@ invariant[0] imp(done(k0) && !weird, is(c.Elems[k0], $EVT) && !cev.Unknown && cev.Null == (src[k0] == nil) && imp(src[k0] != nil, same(cev.Value, $GoElemTypeIndirect(*src[k0]))))
+//@ ensures [C03,C19,C09] imp(isCT && inr && !weird, is(el, $EVT) && !ev.Unknown && ev.Null == (src[k0] == nil) && imp(src[k0] != nil, same(ev.Value, $GoElemTypeIndirect(*src[k0]))))
+
+// elements of object collections
+//@ emits CopyTo when Kind == "ObjectList" || Kind == "ObjectMap"
+//@ define weird = had && is(prevA, types.Object)
+//@ define eo = as(el, types.Object)
+//@ define eot = as(ct.ElemType, types.ObjectType)
+//@ requires imp(isCT && src != nil, is(ct.ElemType, types.ObjectType))
+//@ define weirdAttrs = ite(weird, as(prevA, types.Object).Attrs, zero(map[string]attr.Value))
+//@ modifies weirdAttrs["x"]
+//@ invariant[0] has(tf.Attrs, "f") == had && tf.Attrs["f"] == prevA
+
+//@ emits CopyTo when Kind == "ObjectList" && Ctx == "plain"
+//@ define ceo = as(c.Elems[j0], types.Object)
+//@ define sj = src[j0]
+//@ define cel = c.Elems[j0]
+//@ define dn = done(j0) && inr
+
+//@ emits CopyTo when Kind == "ObjectMap" && Ctx == "plain"
+//@ invariant[0] imp(dn && !weird, ceo.Attrs != c.Elems)
+//@ define ceo = as(c.Elems[k0], types.Object)
+//@ define sj = src[k0]
+//@ define cel = c.Elems[k0]
+//@ define dn = done(k0)
+
+//@ emits CopyTo when (Kind == "ObjectList" || Kind == "ObjectMap") && Ctx == "plain" && Nested == "marker"
+//@ define encX = nestedEncode(sj.X, eot.AttrTypes["x"], zero(attr.Value))
+
+//@ emits CopyTo when (Kind == "ObjectList" || Kind == "ObjectMap") && Ctx == "plain" && Nested == "marker" && IsNullable
+//@ invariant[0] imp(dn && !weird, is(cel, types.Object) && !ceo.Unknown && ceo.AttrTypes == eot.AttrTypes && ceo.Null == (sj == nil))
+//@ invariant[0] imp(dn && !weird && sj != nil, ceo.Attrs != nil && fresh(ceo.Attrs))
+//@ invariant[0] imp(dn && !weird && sj != nil && has(eot.AttrTypes, "x"), has(ceo.Attrs, "x"))
+//@ invariant[0] imp(dn && !weird && sj != nil && has(eot.AttrTypes, "x"), ceo.Attrs["x"] == encX)
+//@ ensures [C03,C09,C02] imp(isCT && inr && !weird, is(el, types.Object) && !eo.Unknown && eo.AttrTypes == eot.AttrTypes && eo.Null == (sj == nil) && imp(sj != nil && has(eot.AttrTypes, "x"), has(eo.Attrs, "x") && eo.Attrs["x"] == encX))
+
+//@ emits CopyTo when (Kind == "ObjectList" || Kind == "ObjectMap") && Ctx == "plain" && Nested == "marker" && !IsNullable
+//@ invariant[0] imp(dn && !weird, is(cel, types.Object) && !ceo.Unknown && ceo.AttrTypes == eot.AttrTypes && !ceo.Null && ceo.Attrs != nil && fresh(ceo.Attrs))
+//@ invariant[0] imp(dn && !weird && has(eot.AttrTypes, "x"), has(ceo.Attrs, "x"))
+//@ invariant[0] imp(dn && !weird && has(eot.AttrTypes, "x"), ceo.Attrs["x"] == encX)
+//@ ensures [C03,C09,C02] imp(isCT && inr && !weird, is(el, types.Object) && !eo.Unknown && eo.AttrTypes == eot.AttrTypes && !eo.Null && imp(has(eot.AttrTypes, "x"), has(eo.Attrs, "x") && eo.Attrs["x"] == encX))
